@@ -3,6 +3,7 @@ mod charset;
 mod genx;
 mod head;
 mod hostile;
+mod mp;
 mod sendloop;
 mod transport;
 mod util;
@@ -185,6 +186,12 @@ fn main() {
     // the client reads proxy settings from the environment: make sure none leak in
     for k in ["http_proxy", "https_proxy", "all_proxy", "no_proxy", "HTTP_PROXY", "HTTPS_PROXY", "ALL_PROXY", "NO_PROXY"] {
         std::env::remove_var(k);
+    }
+    // loading the system trust store costs ~0.4 s of CPU per TLS connector; nothing here relies on it
+    // (trust is only ever established through explicitly added roots)
+    if std::env::var("VERIF_SYSTEM_ROOTS").is_err() {
+        std::env::set_var("SSL_CERT_FILE", "/dev/null");
+        std::env::set_var("SSL_CERT_DIR", "/nonexistent");
     }
     let cmd = args.get(1).map(|s| s.as_str()).unwrap_or("");
     let code = match cmd {
